@@ -6,12 +6,14 @@
   source, and any byte range of A slices the same text as before; B's label positions are shifted by exactly
   `len A + 1` when both files carry source text (fix F13), A's are unchanged; B's line-map blocks are re-keyed by
   `lines(A)` and A's blocks are kept.
-  Not proved: the end-to-end statement through `rev_lookup_line` and `read_line` (needs the trimmed line span of the
-  combined text at a shifted line, i.e. `raw_line_span` over the concatenated newline table); the correspondence check
+  `read_line_after_link`: in the combined source every line of A reads what it read in A and line `l` of B, now line
+  `lines(A) + l`, reads what it read in B (through C25's `line_span_trim`: `read_line` = the trimmed line).
+  Not proved: the composition with `rev_lookup_line` on the merged line map as one statement; the correspondence check
   compares, for every mapped address of every linked file, the line text before and after linking.
 -/
 import Lc3V.Lemmas.SortedMap
 import Lc3V.Props.C25
+import Lc3V.Lemmas.SourceLines
 set_option linter.unusedSimpArgs false
 namespace Lc3V.C22
 open Lc3V SourceInfo
@@ -125,7 +127,68 @@ theorem link_keeps_a_blocks (a b : DebugSyms) (ha : SortedKeys a.lineMap) (x : N
   obtain ⟨z, hz, rfl⟩ := List.mem_map.mp hy
   exact hfree z hz
 
+/-! ### line text after linking -/
+
+theorem splitNl_cons_nl (r : List Char) : splitNl ('\n' :: r) = [] :: splitNl r := by simp [splitNl]
+
+theorem splitNl_cons_other (c : Char) (r x : List Char) (xs : List (List Char)) (h : c ≠ '\n') (hs : splitNl r = x :: xs) :
+    splitNl (c :: r) = (c :: x) :: xs := by simp [splitNl, h, hs]
+
+theorem splitNl_append (a b : List Char) : splitNl (a ++ '\n' :: b) = splitNl a ++ splitNl b := by
+  induction a with
+  | nil => simp [splitNl_cons_nl, splitNl]
+  | cons c cs ih =>
+    simp only [List.cons_append]
+    by_cases h : c = '\n'
+    · subst h
+      rw [splitNl_cons_nl, splitNl_cons_nl, ih]; rfl
+    · cases hs : splitNl cs with
+      | nil => exact absurd hs (splitNl_ne_nil cs)
+      | cons x xs =>
+        rw [splitNl_cons_other c cs x xs h hs, splitNl_cons_other c (cs ++ '\n' :: b) x (xs ++ splitNl b) h (by rw [ih, hs]; rfl)]
+        rfl
+
+/-- **the text of a line after linking**: in the combined source, a line of A reads what it read in A, and line `l` of B —
+    now line `lines(A) + l` — reads what it read in B (`read_line` = the line without surrounding white space, C25) -/
+theorem read_line_after_link (a b : List Char) :
+    (∀ l, l < (ofText a).countLines → (ofText (a ++ '\n' :: b)).readLine l = (ofText a).readLine l) ∧
+    (∀ l, l < (ofText b).countLines → (ofText (a ++ '\n' :: b)).readLine ((ofText a).countLines + l) = (ofText b).readLine l) := by
+  have hla := (C25.lines_of_text a).1
+  have hlb := (C25.lines_of_text b).1
+  have hlab := (C25.lines_of_text (a ++ '\n' :: b)).1
+  have hsplit := splitNl_append a b
+  constructor
+  · intro l hl
+    have h1 : l < (splitNl a).length := by rw [hla]; exact hl
+    have h2 : l < (splitNl (a ++ '\n' :: b)).length := by rw [hsplit, List.length_append]; omega
+    obtain ⟨_, _, _, _, r1⟩ := line_span_trim a l h1
+    obtain ⟨_, _, _, _, r2⟩ := line_span_trim (a ++ '\n' :: b) l h2
+    rw [r1, r2, hsplit]
+    congr 2
+    simp only [List.getD_eq_getElem?_getD]
+    rw [List.getElem?_append_left h1]
+  · intro l hl
+    have h1 : l < (splitNl b).length := by rw [hlb]; exact hl
+    have h2 : (ofText a).countLines + l < (splitNl (a ++ '\n' :: b)).length := by
+      rw [hsplit, List.length_append, hla]; omega
+    obtain ⟨_, _, _, _, r1⟩ := line_span_trim b l h1
+    obtain ⟨_, _, _, _, r2⟩ := line_span_trim (a ++ '\n' :: b) _ h2
+    rw [r1, r2, hsplit]
+    congr 2
+    simp only [List.getD_eq_getElem?_getD]
+    rw [List.getElem?_append_right (by rw [hla]; omega), hla]
+    congr 2
+    omega
+
+/-- for the linked debug symbols -/
+theorem read_line_link (x y : DebugSyms) (hx : x.src = ofText x.src.src) (hy : y.src = ofText y.src.src) :
+    (∀ l, l < x.src.countLines → (DebugSyms.link x y).src.readLine l = x.src.readLine l) ∧
+    (∀ l, l < y.src.countLines → (DebugSyms.link x y).src.readLine (x.src.countLines + l) = y.src.readLine l) := by
+  have := read_line_after_link x.src.src y.src.src
+  rw [← hx, ← hy] at this
+  exact this
+
 def obligations : List Lean.Name :=
-  [``nlFrom_append, ``nl_of_link, ``count_lines_link, ``slice_shift, ``slice_prefix, ``label_shift, ``label_shift_none, ``link_source, ``link_keeps_a_blocks]
+  [``nlFrom_append, ``nl_of_link, ``count_lines_link, ``slice_shift, ``slice_prefix, ``label_shift, ``label_shift_none, ``link_source, ``link_keeps_a_blocks, ``read_line_after_link, ``read_line_link]
 
 end Lc3V.C22
